@@ -39,7 +39,7 @@ def replayed (b : Backend) (ρ : Role) (r : Reply) : Bool :=
 garbles the echo, prints error text or unexpected output, answers with an HTTP error status or
 a malformed body, reports a non-zero exit status, or does not confirm the save. -/
 def badFull (b : Backend) (ρ : Role) (r : Reply) : Bool :=
-  !promptArrives r || !r.status200 || (!r.parses && bodyMatters b ρ)
+  !promptArrives r || (!Backend.isConsole b && (!r.status200 || (!r.parses && bodyMatters b ρ)))
   || (Backend.isConsole b && (!r.echoOk || r.out == .text))
   || (ρ == .probe && !r.flags.contains .status0)
   || (ρ == .save && b != .linux && promptArrives r && !saveContent r)
@@ -50,7 +50,8 @@ inspect (login, set-up and show commands, configuration retrieval, save output b
 confirmation), and except a connection close that net/http hides by replaying the request.
 The complement is the class of findings F-C09a / F-C09b / F-C09c. -/
 def badChecked (b : Backend) (ρ : Role) (r : Reply) : Bool :=
-  (!promptArrives r && !replayed b ρ r) || !r.status200 || (!r.parses && bodyMatters b ρ)
+  (!promptArrives r && !replayed b ρ r)
+  || (!Backend.isConsole b && promptArrives r && (!r.status200 || (!r.parses && bodyMatters b ρ)))
   || (Backend.isConsole b && (ρ == .change) && (!r.echoOk || r.out == .text))
   || (ρ == .probe && ((Backend.isConsole b && !r.echoOk) || !r.flags.contains .status0))
   || (ρ == .save && b != .linux && promptArrives r && !saveContent r)
